@@ -62,7 +62,22 @@ def config(sc, external):
             cfg["variables"]["mask"] = [True, False, True]
     if method == "differential_evolution":
         cfg["optimizer"]["options"] = {"seed": 3, "popsize": 2, "maxiter": 2}
+    if sc.get("integer"):          # integer variables: the back-end must be told about them in the child as well
+        cfg["variables"]["types"] = [2, 1, 2]
+    if sc.get("rich"):             # every optional section is set to something that changes the run when it gets lost
+        cfg["realizations"] = {"weights": [1.0, 2.0, 3.0, 1.0], "realization_min_success": 2}
+        cfg["objectives"] = {"weights": [0.75, 0.25], "realization_filters": [0, -1], "function_estimators": [0, 1]}
+        cfg["realization_filters"] = [{"method": "cvar-objective", "options": {"sort": [0], "percentile": 0.5}}]
+        cfg["function_estimators"] = [{"method": "mean"}, {"method": "stddev"}]
+        cfg["samplers"] = [{"method": "sobol", "shared": True}, {"method": "uniform", "options": {"loc": -0.5, "scale": 1.0}}]
+        cfg["gradient"].update({"samplers": [0, 1, 0], "seed": 12345, "number_of_perturbations": 4, "perturbation_min_success": 3,
+                                "boundary_types": [1, 2, 1], "perturbation_magnitudes": [0.01, 0.5, 0.02]})
+        cfg["optimizer"].update({"speculative": True, "max_iterations": 3, "options": {"ftol": 1e-4}})
     return cfg
+
+
+class Deadline(BaseException):
+    """Raised by the watchdog alarm; not an Exception, so that no handler of the code under test can swallow or re-label it."""
 
 
 def run(sc, external, env_extra=None):
@@ -78,6 +93,8 @@ def run(sc, external, env_extra=None):
             h.update(context.perturbations.tobytes())
         x = variables
         obj = ((x - 0.3 * (1 + context.realizations[:, None])) ** 2).sum(axis=1, keepdims=True)
+        if sc.get("rich"):           # a second objective that depends on the realization in another way
+            obj = np.concatenate([obj, (np.abs(x).sum(axis=1) * (1 + context.realizations % 2))[:, None]], axis=1)
         con = (x[:, 0] * x[:, 2] + x[:, 1])[:, None] if sc.get("con") else None
         if sc.get("nanAt") == state["n"]:
             obj[:] = np.nan
@@ -93,12 +110,14 @@ def run(sc, external, env_extra=None):
     t0 = time.time()
 
     def alarm(*_):
-        raise TimeoutError("deadline")
+        raise Deadline
     signal.signal(signal.SIGALRM, alarm)
     signal.alarm(int(DEADLINE))
     try:
         kw = {"variables": sc["start"]} if sc.get("start") else {}
         code, outcome = outcome_of(lambda: plan.run_step(step, config=config(sc, external), **kw))
+    except Deadline:
+        code, outcome = None, "exc:Deadline"
     finally:
         signal.alarm(0)
         for k, v in old_env.items():
@@ -106,7 +125,7 @@ def run(sc, external, env_extra=None):
                 os.environ.pop(k, None)
             else:
                 os.environ[k] = v
-    hang = outcome == "exc:TimeoutError"
+    hang = outcome == "exc:Deadline"
     alive = live_children()
     for pid in alive:
         try:
@@ -122,8 +141,10 @@ def drive(sc):
     if kind == "pair":
         ext = run(sc, True)
         inp = run(sc, False)
+        if inp["outcome"].startswith("exc:"):
+            raise RuntimeError(f"harness: the in-process reference run of {sc} raised {inp['outcome']}")
         ids = {ext["sig"]: 1}
-        e = {"ev": "Pair", "sigExt": 1, "sigIn": ids.setdefault(inp["sig"], 2), "extoutcome": ext["outcome"], "inoutcome": inp["outcome"],
+        e = {"ev": "Pair", "inhang": bool(inp["hang"]), "sigExt": 1, "sigIn": ids.setdefault(inp["sig"], 2), "extoutcome": ext["outcome"], "inoutcome": inp["outcome"],
              "childalive": ext["childalive"], "hang": ext["hang"], "fault": "none", "outcome": ext["outcome"]}
         return [e], {"nontrivial": True, "key": str(sc), "kind": kind, "evals": ext["evals"]}
     env = {}
@@ -157,9 +178,11 @@ def extra_scenarios(tier, seed):
     """Crash-point replay against real child processes (the model has no scenario emission: the fault space is explicit here)."""
     out = []
     if tier == "quick":
-        kills, methods = (1, 3, 4), ("slsqp",)
+        methods = ("slsqp",)
         pairs = [{"method": "slsqp", "con": True, "maxfun": 6, "start": [1.0, -1.0, 0.25]}, {"method": "cobyla", "mask": True, "maxfun": 8},
-                 {"method": "differential_evolution", "maxfun": 10, "nanAt": 2, "minsucc": 0}]
+                 {"method": "differential_evolution", "maxfun": 10, "nanAt": 2, "minsucc": 0},
+                 {"method": "differential_evolution", "maxfun": 8, "integer": True}, {"method": "slsqp", "maxfun": 6, "rich": True}]
+        kills = (-1, 1, 3, 4)
     else:
         kills, methods = (-1, 1, 2, 3, 4, 5, 6), ("slsqp", "cobyla", "differential_evolution")
         pairs = [{"method": "slsqp", "con": True, "maxfun": 10}, {"method": "slsqp", "mask": True}, {"method": "slsqp", "rel": True, "maxfun": 6},
@@ -167,7 +190,9 @@ def extra_scenarios(tier, seed):
                  {"method": "differential_evolution", "maxfun": 10}, {"method": "l-bfgs-b", "maxfun": 6}, {"method": "nelder-mead", "maxfun": 8},
                  {"method": "slsqp", "nanAt": 3}, {"method": "tnc", "maxfun": 6},
                  {"method": "differential_evolution", "maxfun": 10, "nanAt": 2, "minsucc": 0},
-                 {"method": "slsqp", "maxfun": 6, "start": [1.0, -1.0, 0.25]}, {"method": "cobyla", "maxfun": 6, "start": [0.0, 0.5, 1.0], "mask": True}]
+                 {"method": "slsqp", "maxfun": 6, "start": [1.0, -1.0, 0.25]}, {"method": "cobyla", "maxfun": 6, "start": [0.0, 0.5, 1.0], "mask": True},
+                 {"method": "differential_evolution", "maxfun": 8, "integer": True}, {"method": "slsqp", "maxfun": 6, "rich": True},
+                 {"method": "slsqp", "maxfun": 8, "rich": True, "con": True, "mask": True}]
     for m in methods:
         for k in kills:
             out.append({"kind": "fault", "fault": "kill", "after": k, "method": m, "maxfun": 12})
